@@ -98,6 +98,7 @@ PROPS["C06"] = {
         rapid("bitmap-stats-model", "packetcache", "TestVerif_C06_BitmapStatsModel", 4000, 30000),
         rapid("tobitmap", "packetcache", "TestVerif_C06_ToBitmap", 4000, 30000),
         rapid("readloop-nacks", "rtpconn", "TestVerif_C06_ReadLoopNacks", 150, 1000),
+        rapid("nack-relay", "rtpconn", "TestVerif_C06_NackRelay", 160, 1200, shards=8, quick_shards=8),
     ],
     "technique": "model-based property testing (rapid): loss bitmap / statistics / NACK packing against a model with extended seqnos; real readLoop with captured RTCP",
     "assumptions": ["the packet-rate estimate is 0 in a fast test, so only the 2-packet NACK threshold is exercised",
